@@ -47,6 +47,7 @@ def run(ctx, chk):
     from . import c08
     chk.rule("H6", "end of stream (0 bytes) leaves every receive loop: a shut-down socket unblocks the daemon thread")
     c08.s7s8(fb, Renamed(chk, {"S8": "H6"}))
+    h9(fb, chk)
     from . import xlist
     xlist.apply("C16", fb, chk)
     n = lambda r: len([i for i in chk.instances if i[0] == r])
@@ -200,10 +201,11 @@ def run_on(fb, chk, tag=""):
         names = [set(a[2]) for a in variants]
         if {"SocketBroken"} in names:
             cases["broken"] = okr
-        elif any(a[0] == "true" and "closure" in show(a[1]) for a in o.atoms):
+        elif _flag(o) is True:
             cases["requested"] = okr
-        elif any(a[0] == "false" and "closure" in show(a[1]) for a in o.atoms):
-            cases["not_requested"] = okr
+        elif _flag(o) is False:
+            if cases["not_requested"] is not True:
+                cases["not_requested"] = okr
         elif any("HandleRequest" not in n and n for n in names):
             cases["other_err"] = okr
     # any other way of turning a thread error into Ok is a violation
@@ -213,7 +215,7 @@ def run_on(fb, chk, tag=""):
             continue
         if any(a[0] == "notok" and show(a[1]).startswith("unwrap(map_err(join(") for a in o.atoms):
             names = [set(a[2]) for a in o.atoms if a[0] == "variant" and not a[3]]
-            requested = any(a[0] == "true" and "closure" in show(a[1]) for a in o.atoms)
+            requested = _flag(o) is True
             if {"SocketBroken"} not in names and not requested:
                 stray.append(sorted(n for ns in names for n in ns if n not in ("HandleRequest",))[:3])
     # ... and, the other way round, EVERY request error is forgiven once shutdown was requested: an error return for a
@@ -229,7 +231,7 @@ def run_on(fb, chk, tag=""):
         is_req = any("HandleRequest" in a[2] and len(a[2]) == 1 for a in vs)
         if not is_req:
             continue
-        tested = any(a[0] == "false" and "closure" in show(a[1]) for a in o.atoms)
+        tested = _flag(o) is False
         if not tested:
             unforgiven.append(sorted(n for a in vs for n in a[2] if n != "HandleRequest")[:4])
     chk.check(not unforgiven, "H3", tag + "requested-forgives-all", "every request error is returned only after the shutdown flag was seen false",
@@ -244,6 +246,16 @@ def run_on(fb, chk, tag=""):
               "a request error after a shutdown request maps to %s (wait must succeed once shutdown was requested)" % cases["requested"], w.loc())
     chk.check(cases["not_requested"] is False, "H3", tag + "peer-disconnect", "request error without a shutdown request -> Err",
               "a request error without shutdown request maps to %s (a peer disconnect must be reported)" % cases["not_requested"], w.loc())
+    # the flag is read after the daemon thread was joined (a request may arrive, and the flag be set, while wait() blocks)
+    wm = must_of(fb, w)
+    joins = [bb for bb, t, c in sites(w, name="join")]
+    lds = [bb for bb, t, c in sites(w, name="load")] + [bb for bb, t in w.calls() if (callee_of(t) or {}).get("name") in ("call", "call_mut", "call_once")]
+    dom = wm.cfg.dominators()
+    if lds and joins:
+        late = all(any(j in dom.get(l, ()) for j in joins) for l in lds)
+        chk.check(late, "H3", tag + "flag-read-after-join", "the shutdown flag is read only after join() returned",
+                  "wait() reads the shutdown flag before joining the daemon thread: a shutdown requested while wait() is blocked is missed and "
+                  "reported as an error", w.loc())
     chk.check(all_reset, "H3", tag + "state-reset", "connection state reset on every path", "a path of wait() keeps the old connection state (the daemon could not accept a new connection)", w.loc())
     # the flag the closure reads is the shutdown flag
     # wait() forgives SocketBroken unconditionally, so that class must mean what it says: it is produced only by the
@@ -323,3 +335,46 @@ def run_on(fb, chk, tag=""):
         chk.check(len(shs) == 1, "H5", tag + "daemon-drop", "dropping the daemon shuts the connection down", "Drop for VhostUserDaemon does not shut the connection down", g.loc())
     else:
         chk.anchor_missing("H5", tag + "Drop for VhostUserDaemon")
+
+
+# ---------------------------------------------------------------------------- H9
+
+def _is_flag(t):
+    txt = show(t)
+    return "closure" in txt or ("load(" in txt and "shutdown_requested" in txt)
+
+
+def _flag(o):
+    """What a path of wait() saw of the shutdown flag: True (read, set), False (read, clear / no connection state to read
+    it from), None (not consulted).  The flag is read by a local closure (kept as a call) or, when that closure is expanded
+    in place, by the atomic load itself."""
+    if any(a[0] == "true" and _is_flag(a[1]) for a in o.atoms):
+        return True
+    if any(a[0] == "false" and _is_flag(a[1]) for a in o.atoms):
+        return False
+    if any(a[0] == "notok" and "conn_state" in show(a[1]) for a in o.atoms):
+        return False
+    return None
+
+
+def h9(fb, chk, tag=""):
+    """Who may tell the workers to exit: the handler's send_exit_event is called when serving ends (serve) and when the
+    handler is dropped, nowhere else; the per-worker notifier is raised by the handler's send_exit_event only."""
+    chk.rule("H9", "the workers' exit events are raised only when serving ends or the handler is dropped (never per connection)")
+    callers = {"handler": set(), "worker": set()}
+    for f in fb.fns.values():
+        for bb, t in f.calls():
+            c = callee_of(t)
+            if not c or c.get("name") != "send_exit_event":
+                continue
+            sa = (c.get("self_adt") or resolved(c).get("self_adt") or "")
+            kind = "handler" if sa.endswith("VhostUserHandler") else ("worker" if sa.endswith("VringEpollHandler") else None)
+            if kind:
+                callers[kind].add((f.name, (f.self_adt or "").split("::")[-1], f.short))
+    okh = {c for c in callers["handler"] if (c[0] == "serve" and c[1] == "VhostUserDaemon") or (c[0] == "drop" and c[1] == "VhostUserHandler")}
+    chk.check(callers["handler"] == okh and okh, "H9", tag + "exit-callers:handler", "called by %s" % sorted(c[2] for c in okh),
+              "VhostUserHandler::send_exit_event is also called by %s: the workers stop while the daemon can still serve a connection, "
+              "so later kicks are handled by no worker" % sorted(c[2] for c in callers["handler"] - okh))
+    okw = {c for c in callers["worker"] if c[0] == "send_exit_event" and c[1] == "VhostUserHandler"}
+    chk.check(callers["worker"] == okw and okw, "H9", tag + "exit-callers:worker", "called by %s" % sorted(c[2] for c in okw),
+              "VringEpollHandler::send_exit_event is also called by %s" % sorted(c[2] for c in callers["worker"] - okw))
